@@ -297,6 +297,58 @@ pub fn run(cfg: &Cfg, rep: &mut Report) {
             ctx.nontrivial(b);
         }
     });
+    // ---- physical quantities (uom): written as the plain number of the stored base-unit value; a bare number
+    // sent back to the same quantity type is read in its base unit (temperature excepted: bare numbers are
+    // read as degrees Celsius while the stored unit is kelvin - C18's judgement call, counted, not judged)
+    run_cases(cfg, "quantity", cfg.n(20, 200_000, 8_000_000), rep, |rng, ctx| {
+        use scpi::units::uom::si::{f32 as q32, f64 as q64};
+        let x64: f64 = match rng.usize(4) {
+            0 => rng.range(-100_000, 100_000) as f64 / 8.0,
+            1 => 10f64.powi(rng.range(-12, 12) as i32) * rng.range(1, 9999) as f64,
+            2 => 0.0,
+            _ => f64::from_bits(rng.next()),
+        };
+        let x32 = x64 as f32;
+        macro_rules! q {
+            ($m:ident, $t:ident, $unit:ident, $base:path, $x:expr, $ft:ty, $name:literal, $roundtrip:expr) => {{
+                bump(ctx, 1);
+                let v = $m::$t::new::<$base>($x);
+                let stored: $ft = v.value;
+                match (fmt(&v), fmt(&stored)) {
+                    (Ok(a), Ok(b)) => {
+                        if a != b {
+                            ctx.violation(concat!("C09:quantity:", $name, ":text-differs-from-its-stored-value"), jobj(&[("value", jstr(&format!("{:?}", stored))), ("text", jbytes(&a)), ("text_of_stored_value", jbytes(&b))]));
+                        } else if stored.is_finite() && $roundtrip {
+                            match $m::$t::try_from(Token::DecimalNumericProgramData(&a)) {
+                                Ok(back) if back.value.to_bits() == stored.to_bits() => {}
+                                other => ctx.violation(concat!("C09:quantity:", $name, ":library-roundtrip-differs"), jobj(&[("value", jstr(&format!("{:?}", stored))), ("text", jbytes(&a)), ("back", jstr(&format!("{:?}", other.map(|b| b.value).map_err(|e| e.get_code()))))])),
+                            }
+                        } else if !$roundtrip {
+                            ctx.count("observation.quantity.temperature-bare-number-is-read-as-celsius(not judged)");
+                        }
+                        ctx.count(concat!("quantity.", $name, ".checked"));
+                    }
+                    (a, b) => {
+                        if a.is_ok() != b.is_ok() {
+                            ctx.violation(concat!("C09:quantity:", $name, ":format-result-differs-from-its-stored-value"), jobj(&[("value", jstr(&format!("{:?}", stored)))]));
+                        }
+                    }
+                }
+            }};
+        }
+        use scpi::units::uom::si;
+        ctx.nontrivial(x64.to_bits());
+        match ctx.index % 8 {
+            0 => q!(q32, ElectricPotential, volt, si::electric_potential::volt, x32, f32, "ElectricPotential<f32>", true),
+            1 => q!(q64, ElectricPotential, volt, si::electric_potential::volt, x64, f64, "ElectricPotential<f64>", true),
+            2 => q!(q32, Frequency, hertz, si::frequency::hertz, x32, f32, "Frequency<f32>", true),
+            3 => q!(q64, Time, second, si::time::second, x64, f64, "Time<f64>", true),
+            4 => q!(q32, Ratio, ratio, si::ratio::ratio, x32, f32, "Ratio<f32>", true),
+            5 => q!(q64, Angle, radian, si::angle::radian, x64, f64, "Angle<f64>", true),
+            6 => q!(q32, ElectricCurrent, ampere, si::electric_current::ampere, x32, f32, "ElectricCurrent<f32>", true),
+            _ => q!(q64, ThermodynamicTemperature, kelvin, si::thermodynamic_temperature::kelvin, x64, f64, "ThermodynamicTemperature<f64>", false),
+        }
+    });
     // ---- f64: boundary-directed + random bit patterns
     run_cases(cfg, "f64", cfg.n(30, 3_000_000, 100_000_000), rep, |rng, ctx| {
         let b: u64 = match rng.usize(8) {
